@@ -1,0 +1,99 @@
+//go:build verif
+// +build verif
+
+package index
+
+import (
+	"sort"
+	"sync/atomic"
+
+	uuid "github.com/satori/go.uuid"
+)
+
+// Read-only state dump for verification harnesses. No-op unless built with -tags verif.
+
+type VerifEdge struct {
+	To       uuid.UUID
+	ToPtrIdx int // index into VerifDumpT.Vertices of the target vertex object, -1 if it is not a stored vertex
+	Distance float32
+	Deleted  bool
+}
+
+type VerifVertex struct {
+	Id       uuid.UUID
+	Vector   []float32
+	Metadata map[string]string
+	Level    int
+	Deleted  bool
+	Edges    [][]VerifEdge // per level
+}
+
+type VerifDumpT struct {
+	Len            int
+	DataBytes      uint64
+	BytesSize      uint64
+	EntrypointNil  bool
+	Entrypoint     uuid.UUID
+	EntrypointDel  bool
+	EntrypointLive bool // the entry point object is the one stored under its id
+	Vertices       []VerifVertex
+}
+
+func (this *Hnsw) VerifDump() VerifDumpT {
+	d := VerifDumpT{Len: this.Len(), DataBytes: atomic.LoadUint64(&this.bytesSize), BytesSize: this.BytesSize()}
+	ep := (*hnswVertex)(atomic.LoadPointer(&this.entrypoint))
+	d.EntrypointNil = ep == nil
+	var stored []*hnswVertex
+	for _, shard := range this.vertices {
+		for _, v := range shard {
+			stored = append(stored, v)
+		}
+	}
+	sort.Slice(stored, func(i, j int) bool { return string(stored[i].id[:]) < string(stored[j].id[:]) })
+	idx := make(map[*hnswVertex]int, len(stored))
+	for i, v := range stored {
+		idx[v] = i
+	}
+	if ep != nil {
+		d.Entrypoint = ep.id
+		d.EntrypointDel = ep.isDeleted()
+		_, d.EntrypointLive = idx[ep]
+	}
+	for _, v := range stored {
+		vv := VerifVertex{Id: v.id, Vector: append([]float32{}, v.vector...), Level: v.level, Deleted: v.isDeleted()}
+		if v.metadata != nil {
+			vv.Metadata = map[string]string{}
+			for k, val := range v.metadata {
+				vv.Metadata[k] = val
+			}
+		}
+		for l := 0; l < len(v.edges); l++ {
+			var es []VerifEdge
+			for n, dist := range v.edges[l] {
+				e := VerifEdge{To: n.id, Distance: dist, Deleted: n.isDeleted(), ToPtrIdx: -1}
+				if i, ok := idx[n]; ok {
+					e.ToPtrIdx = i
+				}
+				es = append(es, e)
+			}
+			sort.Slice(es, func(i, j int) bool {
+				if es[i].To != es[j].To {
+					return string(es[i].To[:]) < string(es[j].To[:])
+				}
+				return es[i].ToPtrIdx < es[j].ToPtrIdx
+			})
+			vv.Edges = append(vv.Edges, es)
+		}
+		d.Vertices = append(d.Vertices, vv)
+	}
+	return d
+}
+
+// VerifGetMetadata returns the metadata stored for id.
+func (this *Hnsw) VerifGetMetadata(id uuid.UUID) (Metadata, bool) {
+	v, err := this.GetVertex(id)
+	if err != nil {
+		return nil, false
+	}
+	return v.metadata, true
+}
